@@ -659,3 +659,100 @@ def lookup_model(fn):
         return narr.NP_MODELS.get(fn)
     except TypeError:
         return None
+
+
+# ------------------------------------------------------------------ pandas
+class DFrame:
+    """pandas.DataFrame with a default RangeIndex: ordered dict of equally long
+    columns.  `df[col]` yields the column values (a Series is modelled by its
+    values array: every use in the carriers is positional)."""
+
+    def __init__(self, cols, n):
+        self.cols = dict(cols)  # name -> SArr
+        self.n = n
+        from .values import next_uid
+
+        self.uid = next_uid()
+        self.frozen = False
+
+    def __pyvc_snapshot__(self, memo):
+        from .values import snapshot
+
+        c = DFrame({k: snapshot(v, memo) for k, v in self.cols.items()}, self.n)
+        c.uid = self.uid
+        return c
+
+    def __pyvc_getitem__(self, eng, key):
+        eng.assumptions.add("pandas-model:DataFrame with default RangeIndex; df[col] is the column's values")
+        if isinstance(key, str):
+            if key not in self.cols:
+                raise ProgExc(KeyError, key)
+            c = self.cols[key]
+            return SArr(c.arr, c.n, c.kind, name=key, dtype=c.dtype)
+        if isinstance(key, PList) and key.items is not None:
+            return DFrame({k: self.cols[k] for k in key.items}, self.n)
+        if isinstance(key, SArr) and key.kind == "bool":
+            raise Unsupported("boolean row selection on a DataFrame")
+        raise Unsupported("DataFrame subscript")
+
+    def __pyvc_setitem__(self, eng, key, val):
+        from .models import check_frame
+
+        check_frame(eng, self)
+        if not isinstance(key, str):
+            raise Unsupported("DataFrame column assignment with a non-string key")
+        if isinstance(val, SArr):
+            _len_eq(eng, SArr(val.arr, self.n, val.kind), val, "column assignment")
+            self.cols[key] = SArr(val.arr, self.n, val.kind, name=key, dtype=val.dtype)
+        elif isinstance(val, PList) and val.items is None:
+            self.cols[key] = SArr(val.cols[0], self.n, val.kinds[0], name=key)
+        elif kind_of(val) is not None:
+            k = kind_of(val)
+            self.cols[key] = SArr(z3.K(z3.IntSort(), to_z3(val, k)), self.n, k, name=key)
+        else:
+            raise Unsupported("DataFrame column assignment value")
+
+    def __pyvc_getattr__(self, eng, name):
+        if name == "loc" or name == "iloc" or name == "at":
+            return DLoc(self)
+        if name == "columns":
+            return PList(list(self.cols.keys()))
+        if name == "shape":
+            return (eng.snum(zint(self.n), "int"), len(self.cols))
+        if name == "copy":
+            return NativeMethod(lambda e, r, a, k: DFrame({c: SArr(v.arr, v.n, v.kind, name=c, dtype=v.dtype) for c, v in r.cols.items()}, r.n), self, name)
+        if name == "to_numpy":
+            raise Unsupported("DataFrame.to_numpy")
+        raise Unsupported(f"DataFrame.{name}")
+
+
+class DLoc:
+    def __init__(self, df):
+        self.df = df
+
+    def __pyvc_getitem__(self, eng, key):
+        from .models import norm_index
+
+        if isinstance(key, tuple) and len(key) == 2 and isinstance(key[1], str):
+            c = self.df.cols[key[1]]
+            iz = norm_index(eng, key[0], c.n, "df.loc row")
+            return Sym(z3.Select(c.arr, iz), c.kind)
+        raise Unsupported("df.loc form")
+
+    def __pyvc_setitem__(self, eng, key, val):
+        from .models import check_frame, norm_index
+
+        check_frame(eng, self.df)
+        if isinstance(key, tuple) and len(key) == 2 and isinstance(key[1], str) and isinstance(key[0], SArr) and key[0].kind == "bool":
+            eng.assumptions.add("pandas-model:df.loc[mask, col] = scalar writes exactly the masked rows")
+            c, m = self.df.cols[key[1]], key[0]
+            _len_eq(eng, c, m, "df.loc mask")
+            vz = to_z3(val, c.kind)
+            self.df.cols[key[1]] = SArr(lam(lambda i: z3.If(m.get(i).z, vz, c.get(i).z), c.kind), c.n, c.kind, name=key[1], dtype=c.dtype)
+            return
+        if isinstance(key, tuple) and len(key) == 2 and isinstance(key[1], str):
+            c = self.df.cols[key[1]]
+            iz = norm_index(eng, key[0], c.n, "df.loc row")
+            self.df.cols[key[1]] = SArr(z3.Store(c.arr, iz, to_z3(val, c.kind)), c.n, c.kind, name=key[1], dtype=c.dtype)
+            return
+        raise Unsupported("df.loc store form")
